@@ -1,13 +1,337 @@
-import Uflow.Model.Endpoint
+import Uflow.Lemmas.EndpointEventsExamples
 
-/-! # C08 (theorems on the endpoint model are being added) -/
+/-!
+# C08 — the event stream is well-formed
+
+Model: `Uflow.Endpoint` (`Uflow/Model/Endpoint.lean`); every theorem holds for every half connection
+`hc : HC H`. Helper lemmas: `Uflow/Lemmas/EndpointClient*.lean`, `Uflow/Lemmas/EndpointEvents*.lean`.
+
+Client monitor (`CPhase`, defined in `Uflow/Lemmas/EndpointClient.lean`):
+`idle --connect--> conn --receive--> conn --disconnect | error timeout--> done`, `idle --error e--> done`,
+everything else is rejected. `Compat state phase` links the client state to the monitor phase:
+`pending ↔ idle`, `active`/`closing ↔ conn`, `closed ↔ done`, `fin ↔ idle or done`.
+-/
 
 namespace Uflow.Props.C08
 
-open Uflow.Endpoint
+open Uflow.Endpoint Uflow.Codec Uflow.Gen Uflow.HalfConn
+
+variable {H : Type}
 
 /-- `u32` (the model of `.min(u32::MAX as usize) as u32`) fits 32 bits. -/
 theorem C08_u32_lt (x : Nat) : u32 x < 2^32 := by
   unfold u32; omega
+
+/-! ## Client -/
+
+/-- `C08_client_stream` (monitor form, any start state): the events delivered by any run from a state
+with an empty event buffer are accepted by the monitor started in any phase compatible with the start
+state, and the monitor ends in a phase compatible with the final state. -/
+theorem C08_client_stream_monitor (hc : HC H) (ops : List COp) (c c' : Client H) (sent : List (List Nat))
+    (evs : List CEvent) (h : Client.run hc c ops = .ok (c', sent, evs)) (he : c.eventsOut = [])
+    (p : CPhase) (hp : Compat c.state p) :
+    c'.eventsOut = [] ∧ ∃ p', p.run evs = some p' ∧ Compat c'.state p' :=
+  Client.run_monitor hc ops c c' sent evs h he p hp
+
+/-- `C08_client_stream`: the complete event list of any run of a client created by `Client.connect` is
+* empty, or
+* a single `error e` (handshake refused or timed out), or
+* `connect`, then only `receive`s, then optionally one terminal event, which is `disconnect` or
+  `error timeout` — and a terminal event has been delivered iff … the final state tells: still
+  `active`/`closing` ⇒ none yet; `closed` ⇒ delivered.
+In particular it matches `Connect? Receive* (Disconnect|Error)?`, `receive`/`disconnect` occur only
+after `connect`, and nothing follows a terminal event. -/
+theorem C08_client_stream (hc : HC H) (ep : EpConfig) (now : Nat) (rng : Rng) (ops : List COp)
+    (c' : Client H) (sent : List (List Nat)) (evs : List CEvent)
+    (h : Client.run hc (Client.connect ep now rng).1 ops = .ok (c', sent, evs)) :
+    ((evs = [] ∧ ∀ ln hh t sig, c'.state ≠ .active ln hh t sig) ∨
+     (∃ e, evs = [CEvent.error e] ∧ c'.state.terminal) ∨
+     ∃ (pkts : List (List Nat)) (tail : List CEvent), evs = CEvent.connect :: (pkts.map CEvent.receive ++ tail) ∧
+       ((tail = [] ∧ ((∃ ln hh t sig, c'.state = .active ln hh t sig) ∨ c'.state.isClosing)) ∨
+        ((tail = [CEvent.disconnect] ∨ tail = [CEvent.error .timeout]) ∧ c'.state.terminal))) ∧
+    ClientStreamRegex evs := by
+  obtain ⟨-, p', hrun, hcompat⟩ := Client.run_monitor hc ops _ c' sent evs h rfl .idle (by simp [Client.connect, Compat])
+  rcases CPhase.run_idle evs p' hrun with ⟨rfl, rfl⟩ | ⟨e, rfl, rfl⟩ | ⟨pkts, tail, rfl, ht⟩
+  · refine ⟨Or.inl ⟨rfl, ?_⟩, [], [], [], rfl, Or.inl rfl, by simp, Or.inl rfl⟩
+    intro ln hh t sig hs; rw [hs] at hcompat; cases hcompat
+  · refine ⟨Or.inr (Or.inl ⟨e, rfl, ?_⟩), [], [], [CEvent.error e], rfl, Or.inl rfl, by simp, Or.inr (Or.inr ⟨e, rfl⟩)⟩
+    cases hs : c'.state <;> rw [hs] at hcompat <;> simp [Compat] at hcompat
+    · exact Or.inr ⟨_, rfl⟩
+    · exact Or.inl rfl
+  · refine ⟨Or.inr (Or.inr ⟨pkts, tail, rfl, ?_⟩), [CEvent.connect], pkts.map CEvent.receive, tail, by simp,
+      Or.inr rfl, by simp, ?_⟩
+    · rcases ht with ⟨rfl, rfl⟩ | ⟨ht, rfl⟩
+      · refine Or.inl ⟨rfl, ?_⟩
+        cases hs : c'.state <;> rw [hs] at hcompat <;> simp [Compat] at hcompat
+        · exact Or.inl ⟨_, _, _, _, rfl⟩
+        · exact Or.inr ⟨_, _, _, rfl⟩
+      · refine Or.inr ⟨ht, ?_⟩
+        cases hs : c'.state <;> rw [hs] at hcompat <;> simp [Compat] at hcompat
+        · exact Or.inr ⟨_, rfl⟩
+        · exact Or.inl rfl
+    · rcases ht with ⟨rfl, _⟩ | ⟨rfl | rfl, _⟩
+      · exact Or.inl rfl
+      · exact Or.inr (Or.inl rfl)
+      · exact Or.inr (Or.inr ⟨_, rfl⟩)
+
+/-- After `closed` or `fin` the stream is empty: any run from such a state (empty event buffer)
+delivers no event, stays in `closed`/`fin`, and sends only `disconnectAck` replies (nothing from `fin`). -/
+theorem C08_client_quiet_after_terminal (hc : HC H) (ops : List COp) (c c' : Client H) (sent : List (List Nat))
+    (evs : List CEvent) (ht : c.state.terminal) (he : c.eventsOut = [])
+    (h : Client.run hc c ops = .ok (c', sent, evs)) :
+    evs = [] ∧ c'.state.terminal ∧ (∀ b ∈ sent, b = discAck) ∧ (c.state = .fin → c'.state = .fin ∧ sent = []) := by
+  obtain ⟨h1, -, h3, h4, h5⟩ := Client.run_terminal hc ops c c' sent evs ht he h
+  exact ⟨h3, h1, h4, h5⟩
+
+/-- Per-transition: every successful `handleFrame` is one of nine transitions — which events, from
+which state, to which state, which reply. -/
+theorem C08_client_handleFrame_cases (hc : HC H) (c c' : Client H) (f : Frame) (nowMs nowNs : Nat)
+    (out : List (List Nat)) (h : c.handleFrame hc f nowMs nowNs = .ok (c', out)) :
+    (c' = c ∧ out = []) ∨
+    (∃ ln req rt rc sends n r p a, c.state = .pending ln req rt rc sends ∧ f = .synAck ln n r p a ∧
+      c' = { c with eventsOut := c.eventsOut ++ [CEvent.connect],
+                    state := .active ln
+                      (sends.foldl (fun h (e : List Nat × Nat × SendMode) => hc.send h e.1 e.2.1 e.2.2)
+                        (hc.new (hcConfig c.ep ln n r a) nowNs))
+                      c.ep.activeTimeoutMs none } ∧
+      out = [encode (.hsAck n)]) ∨
+    (∃ ln hh t sig n r p a, c.state = .active ln hh t sig ∧ f = .synAck ln n r p a ∧ c' = c ∧
+      out = [encode (.hsAck n)]) ∨
+    (∃ ln req rt rc sends e, c.state = .pending ln req rt rc sends ∧ f = .hsError ln e ∧
+      c' = { c with eventsOut := c.eventsOut ++ [CEvent.error (errOfHs e)], state := .fin } ∧ out = []) ∨
+    (∃ ln hh t sig h' pkts, c.state = .active ln hh t sig ∧ f = .disconnect ∧ hc.receive hh = .ok (h', pkts) ∧
+      c' = { c with eventsOut := c.eventsOut ++ pkts.map CEvent.receive ++ [CEvent.disconnect],
+                    state := .closed (nowMs + CLIENT_CLOSED_TIMEOUT_MS) } ∧ out = [discAck]) ∨
+    (∃ req rt rc, c.state = .closing req rt rc ∧ f = .disconnect ∧
+      c' = { c with eventsOut := c.eventsOut ++ [CEvent.disconnect], state := .closed (nowMs + CLIENT_CLOSED_TIMEOUT_MS) } ∧
+      out = [discAck]) ∨
+    (∃ t, c.state = .closed t ∧ f = .disconnect ∧ c' = c ∧ out = [discAck]) ∨
+    (∃ req rt rc, c.state = .closing req rt rc ∧ f = .disconnectAck ∧
+      c' = { c with eventsOut := c.eventsOut ++ [CEvent.disconnect], state := .fin } ∧ out = []) ∨
+    (∃ ln hh t sig h', c.state = .active ln hh t sig ∧ isTraffic f = true ∧ hc.dispatch hh f = .ok h' ∧
+      c' = { c with state := .active ln h' (nowMs + c.ep.activeTimeoutMs) sig } ∧ out = []) :=
+  Client.handleFrame_cases hc c c' f nowMs nowNs out h
+
+/-- Per-transition: `handleEvents` delivers an event iff a timer of the state has run out
+(`Client.expired`: retries of `pending`/`closing` exhausted, or activity deadline of `active` passed);
+then it is exactly one `error timeout` and the state becomes `fin`. -/
+theorem C08_client_handleEvents_cases (c : Client H) (nowMs : Nat) :
+    (c.expired nowMs → c.handleEvents nowMs =
+      ({ c with eventsOut := c.eventsOut ++ [CEvent.error .timeout], state := .fin }, [])) ∧
+    (¬ c.expired nowMs → (c.handleEvents nowMs).1.eventsOut = c.eventsOut) :=
+  ⟨Client.handleEvents_expired c nowMs, Client.handleEvents_not_expired c nowMs⟩
+
+/-- Per-transition: `step_if_active` delivers only `receive` events, only from `active`, and ends in
+`active` or `closing`; from any other state it does nothing. -/
+theorem C08_client_stepPhase_cases (hc : HC H) (c c' : Client H) (nowMs nowNs : Nat) (out : List (List Nat))
+    (h : c.stepPhase hc nowMs nowNs = .ok (c', out)) :
+    (c' = c ∧ out = [] ∧ ∀ ln hh t sig, c.state ≠ .active ln hh t sig) ∨
+    ∃ ln hh t sig, c.state = .active ln hh t sig ∧ ∃ pkts : List (List Nat),
+      c'.eventsOut = c.eventsOut ++ pkts.map CEvent.receive ∧
+      ((∃ h', c'.state = .active ln h' t sig) ∨ c'.state.isClosing) := by
+  rcases CState.active_or_not c.state with ⟨ln, hh, t, sig, hs⟩ | hna'
+  · refine Or.inr ⟨ln, hh, t, sig, hs, ?_⟩
+    rw [Client.stepPhase_active hc c nowMs nowNs ln hh t sig hs] at h
+    split at h
+    · split at h <;> cases h
+      exact ⟨_, rfl, Or.inr ⟨_, _, _, rfl⟩⟩
+    · split at h
+      · cases h
+      · split at h <;> cases h
+        exact ⟨_, rfl, Or.inl ⟨_, rfl⟩⟩
+  · rw [Client.stepPhase_not_active hc c nowMs nowNs hna'] at h
+    cases h; exact Or.inl ⟨rfl, rfl, hna'⟩
+
+/-! ### Non-vacuity (client) -/
+
+/-- A complete life: connect, two packets received, peer disconnects; later steps deliver nothing. -/
+example : okAnd (Client.run echoHC exClientE
+      [.send [1] 0 .reliable, .send [2, 3] 0 .reliable, .step 1000000 [exSynAck], .step 2000000 [encode .disconnect],
+       .step 3000000 [encode .disconnect, exSynAck]])
+    (fun r => decide (r.2.2 = [CEvent.connect, .receive [1], .receive [2, 3], .disconnect])) = true := by
+  decide +kernel
+
+/-- A terminal state with an empty buffer (hypotheses of `C08_client_quiet_after_terminal`). -/
+example : ({ exClient with state := .closed 5 } : Client Unit).state.terminal ∧
+    ({ exClient with state := .closed 5 } : Client Unit).eventsOut = [] := ⟨Or.inr ⟨5, rfl⟩, rfl⟩
+
+/-- Monitor hypotheses: the fresh client is `pending`, compatible with `idle`. -/
+example : exClient.eventsOut = [] ∧ Compat exClient.state .idle := ⟨rfl, rfl⟩
+
+/-- `handleEvents`: an expired and a non-expired state. -/
+example : exClient.expired 1999 = False ∧ ({ exClient with state := .active 7 () 100 none } : Client Unit).expired 100 := by
+  constructor
+  · simp [Client.expired, exClient, Client.connect, CLIENT_HANDSHAKE_RESEND_INTERVAL_MS]
+  · simp [Client.expired]
+
+
+/-! ## Server
+
+Per-address monitor (`SPhase`, `Uflow/Lemmas/EndpointEventsMonitor.lean`):
+`idle --connect a--> conn --receive a _--> conn --disconnect a | error a timeout--> idle`,
+`idle --error a _--> idle` (a refused or timed-out handshake attempt of `a`); the application's own
+`drop a` (label `SLabel.drop a`) returns to `idle` from any phase; everything else is rejected.
+`s.phaseOf a` reads the phase of an address off the state: `conn` iff the map has an entry for `a` that
+is `active` or `closing`. `Server.WF`: the global well-formedness invariant (addresses of the map
+distinct, object identities distinct across map and detached objects, detached objects are `fin`,
+`nextCid` fresh, every `active` entry is on the `active` list). `STr s evs s'`: `s'` is well-formed,
+`s'.eventsOut = s.eventsOut ++ evs`, and for every address the events of that address lead the monitor
+from `s.phaseOf a` to `s'.phaseOf a`. -/
+
+/-- What `conn` means. -/
+theorem C08_server_phase_conn_iff (s : Server H) (a : Nat) :
+    s.phaseOf a = .conn ↔ ∃ c, s.find a = some c ∧ c.state.connected = true := by
+  unfold Server.phaseOf
+  cases hf : s.find a with
+  | none => simp
+  | some c =>
+    simp only [RState.phase, Option.some.injEq, exists_eq_left']
+    cases c.state.connected <;> simp
+
+/-- The initial state is well-formed. -/
+theorem C08_server_wf_init (cfg : SrvConfig) (now : Nat) (rng : Rng) : (Server.init cfg now rng : Server H).WF :=
+  Server.WF.init cfg now rng
+
+/-- `C08_server_stream`: in every run of a server (from `Server.init`), the state stays well-formed and,
+for every address `a`, the events about `a` delivered by the steps — interleaved with the application's
+own `drop a` calls — are accepted by the per-address monitor started `idle`, which ends in the phase
+read off the final state. Hence per address: `Connect Receive* (Disconnect|Error(timeout))`, possibly
+cut short by a `drop`, then nothing but refused-attempt errors until the next `Connect`; `receive` and
+`disconnect` only while the entry is `active`/`closing`; exactly one terminal event per connection that
+the server itself ends. -/
+theorem C08_server_stream (hc : HC H) (cfg : SrvConfig) (now : Nat) (rng : Rng) (ops : List SOp)
+    (s' : Server H) (sent : List (Nat × List Nat)) (ls : List SLabel)
+    (h : Server.run hc (Server.init cfg now rng) ops = .ok (s', sent, ls)) :
+    s'.WF ∧ s'.eventsOut = [] ∧ ∀ a, SPhase.runL .idle (lblOf a ls) = some (s'.phaseOf a) := by
+  obtain ⟨h1, h2, -, -, h5⟩ := Server.run_monitor hc ops _ s' (Server.WF.init cfg now rng) rfl sent ls h
+  exact ⟨h1, h2, h5⟩
+
+/-- The same from any well-formed state with an empty event buffer: the monitor starts in the phase of
+the initial state. -/
+theorem C08_server_stream_general (hc : HC H) (ops : List SOp) (s s' : Server H) (hw : s.WF) (he : s.eventsOut = [])
+    (sent : List (Nat × List Nat)) (ls : List SLabel) (h : Server.run hc s ops = .ok (s', sent, ls)) :
+    s'.WF ∧ s'.eventsOut = [] ∧ ∀ a, (s.phaseOf a).runL (lblOf a ls) = some (s'.phaseOf a) := by
+  obtain ⟨h1, h2, -, -, h5⟩ := Server.run_monitor hc ops s s' hw he sent ls h
+  exact ⟨h1, h2, h5⟩
+
+/-- One step (`Server.step`) from a well-formed state with an empty buffer. -/
+theorem C08_server_step (hc : HC H) (s s' : Server H) (hw : s.WF) (he : s.eventsOut = []) (nowNs : Nat)
+    (arrivals sent : List (Nat × List Nat)) (evs : List SEvent)
+    (h : s.step hc nowNs arrivals = .ok (s', sent, evs)) :
+    s'.WF ∧ s'.eventsOut = [] ∧ ∀ a, (s.phaseOf a).run (evsOf a evs) = some (s'.phaseOf a) := by
+  obtain ⟨h1, h2, -, -, h5⟩ := Server.step_STr hc s s' hw he nowNs arrivals sent evs h
+  exact ⟨h1, h2, h5⟩
+
+/-! ### Per-transition lemmas (server): which events, from which state -/
+
+/-- SYN: at most one event, `error addr e` with `e ≠ timeout`, only when `addr` has no entry; a new entry
+is created only when `clients` has no entry for the address. -/
+theorem C08_server_handleSyn (s : Server H) (hw : s.WF) (addr v n r p a nowMs : Nat) :
+    ∃ evs, STr s evs (s.handleSyn addr v n r p a nowMs).1 ∧
+      (evs = [] ∨ ((∃ ev, ev ≠ .timeout ∧ evs = [SEvent.error addr ev]) ∧ s.find addr = none ∧
+        (s.handleSyn addr v n r p a nowMs).1.clients = s.clients)) ∧
+      (∀ c, s.find addr = some c → s.handleSyn addr v n r p a nowMs = (s, [])) := by
+  obtain ⟨evs, h1, h2⟩ := Server.handleSyn_STr s hw addr v n r p a nowMs
+  refine ⟨evs, h1, h2, fun c hf => ?_⟩
+  unfold Server.handleSyn; rw [hf]
+
+/-- Handshake ACK: `connect` iff the entry is `pending` with the acknowledged nonce. -/
+theorem C08_server_handleHsAck (hc : HC H) (s : Server H) (hw : s.WF) (addr na nowMs nowNs : Nat) :
+    ∃ evs, STr s evs (s.handleHsAck hc addr na nowMs nowNs) ∧
+      (evs = [] ∨ (evs = [SEvent.connect addr] ∧
+        ∃ c ln rn r al rb, s.find addr = some c ∧ c.state = .pending ln rn r al rb ∧ na = ln)) :=
+  Server.handleHsAck_STr hc s hw addr na nowMs nowNs
+
+/-- Disconnect request: from `active`/`closing` the remaining packets then exactly one `disconnect`
+(entry becomes `closed`); from any other state no event. -/
+theorem C08_server_handleDisconnect (hc : HC H) (s s' : Server H) (hw : s.WF) (addr nowMs : Nat)
+    (out : List (Nat × List Nat)) (h : s.handleDisconnect hc addr nowMs = .ok (s', out)) :
+    ∃ evs, STr s evs s' ∧
+      (evs = [] ∨ ∃ c, s.find addr = some c ∧ c.state.connected = true ∧
+        ∃ pkts : List (List Nat), evs = pkts.map (SEvent.receive addr) ++ [SEvent.disconnect addr]) :=
+  Server.handleDisconnect_STr hc s s' hw addr nowMs out h
+
+/-- Disconnect ACK: exactly one `disconnect` iff the entry is `closing`; the entry is removed. -/
+theorem C08_server_handleDisconnectAck (s : Server H) (hw : s.WF) (addr : Nat) :
+    ∃ evs, STr s evs (s.handleDisconnectAck addr) ∧
+      (evs = [] ∨ (evs = [SEvent.disconnect addr] ∧ ∃ c, s.find addr = some c ∧ c.state = .closing)) :=
+  Server.handleDisconnectAck_STr s hw addr
+
+/-- Data / sync / ack: never an event. -/
+theorem C08_server_handleTraffic (hc : HC H) (s s' : Server H) (hw : s.WF) (addr : Nat) (f : Frame) (nowMs : Nat)
+    (h : s.handleTraffic hc addr f nowMs = .ok s') : STr s [] s' :=
+  Server.handleTraffic_STr hc s s' hw addr f nowMs h
+
+/-- Any frame: a monitor-accepted transition without `error _ timeout`. -/
+theorem C08_server_handleFrame (hc : HC H) (s s' : Server H) (hw : s.WF) (addr : Nat) (f : Frame) (nowMs nowNs : Nat)
+    (out : List (Nat × List Nat)) (h : s.handleFrame hc addr f nowMs nowNs = .ok (s', out)) :
+    ∃ evs, STr s evs s' ∧ ∀ a, SEvent.error a .timeout ∉ evs :=
+  Server.handleFrame_STr hc s s' hw addr f nowMs nowNs out h
+
+/-- Timers: at most one event, `error _ timeout`, exactly when the retry count of a `pending` handshake
+(with `enableHandshakeErrors`) or of a `closing` entry is exhausted; `closed`/`fin`/detached objects emit
+nothing. -/
+theorem C08_server_handleTimer (s : Server H) (hw : s.WF) (t : Timer) (nowMs : Nat) :
+    ∃ evs, STr s evs (s.handleTimer t nowMs).1 ∧
+      (evs = [] ∨ ∃ c, s.byCid t.cid = some c ∧ c ∈ s.clients ∧ evs = [SEvent.error c.address .timeout] ∧
+        t.count = 0 ∧
+        (((∃ ln rn r al rb, c.state = .pending ln rn r al rb) ∧ t.kind = .resendSynAck) ∨
+         (c.state = .closing ∧ t.kind = .resendDisconnect))) :=
+  Server.handleTimer_STr s hw t nowMs
+
+/-- Active-timeout loop, one iteration: nothing, or the remaining packets then `error timeout` for an
+`active` entry whose deadline has passed; the entry is removed. -/
+theorem C08_server_activeTimeoutStep (hc : HC H) (nowMs : Nat) (s s' : Server H) (hw : s.WF) (cid : Nat)
+    (h : Server.activeTimeoutStep hc nowMs s cid = .ok s') :
+    ∃ evs, STr s evs s' ∧
+      ((evs = [] ∧ s' = s) ∨
+       ∃ c hh t sig h' pkts, s.byCid cid = some c ∧ c ∈ s.clients ∧ c.state = .active hh t sig ∧ nowMs ≥ t ∧
+         hc.receive hh = .ok (h', pkts) ∧
+         evs = pkts.map (SEvent.receive c.address) ++ [SEvent.error c.address .timeout] ∧
+         s'.clients = s.clients.filter (·.address ≠ c.address)) :=
+  Server.activeTimeoutStep_STr hc nowMs s s' hw cid h
+
+/-- `step_active_clients`, one iteration: only `receive`s, only for an `active` entry. -/
+theorem C08_server_stepActiveStep (hc : HC H) (nowMs nowNs : Nat) (acc acc' : Server H × List (Nat × List Nat))
+    (hw : acc.1.WF) (cid : Nat) (h : Server.stepActiveStep hc nowMs nowNs acc cid = .ok acc') :
+    ∃ evs, STr acc.1 evs acc'.1 ∧
+      ((evs = [] ∧ acc' = acc) ∨
+       ∃ (c : RClient H) (hh : H) (t : Nat) (sig : Option DisconnectMode) (pkts : List (List Nat)), acc.1.byCid cid = some c ∧ c ∈ acc.1.clients ∧
+         c.state = .active hh t sig ∧ evs = pkts.map (SEvent.receive c.address)) := by
+  obtain ⟨evs, h1, h2⟩ := Server.stepActiveStep_STr hc nowMs nowNs acc acc' hw cid h
+  refine ⟨evs, h1, ?_⟩
+  rcases h2 with h2 | ⟨c, hh, t, sig, hb, hcm, hst, hcase⟩
+  · exact Or.inl h2
+  · rcases hcase with ⟨_, _, pkts, _, he, _⟩ | ⟨_, _, _, pkts, _, _, he, _⟩
+    · exact Or.inr ⟨c, hh, t, sig, pkts, hb, hcm, hst, he⟩
+    · exact Or.inr ⟨c, hh, t, sig, pkts, hb, hcm, hst, he⟩
+
+/-- `drop`: no event; the address becomes `idle` (the only way a connection ends without a terminal
+event). -/
+theorem C08_server_drop (s : Server H) (hw : s.WF) (addr : Nat) :
+    (s.drop addr).WF ∧ (s.drop addr).eventsOut = s.eventsOut ∧
+    ∀ a, (s.drop addr).phaseOf a = if a = addr then .idle else s.phaseOf a := by
+  obtain ⟨h1, h2, -, -, h5⟩ := Server.drop_tr s hw addr
+  exact ⟨h1, h2, h5⟩
+
+/-! ### Non-vacuity (server) -/
+
+/-- A complete life of address 5: SYN, forged ACK (ignored), ACK, packets, peer disconnects. -/
+example : okAnd (Server.run echoHC exServerE
+      [.step 1000000 [(5, exSyn)], .step 2000000 [(5, exHsAckBad), (5, exHsAck)], .send 5 [1, 2] 0 .reliable,
+       .step 3000000 [], .step 4000000 [(5, encode .disconnect)], .step 5000000 [(5, encode .disconnect)]])
+    (fun r => decide (r.2.2 = [SLabel.ev (.connect 5), .ev (.receive 5 [1, 2]), .ev (.disconnect 5)])) = true := by
+  decide +kernel
+
+/-- A connection ended by `drop`, then a new attempt from the same address. -/
+example : okAnd (Server.run trivHC exServer
+      [.step 1000000 [(5, exSyn)], .step 2000000 [(5, exHsAck)], .drop 5, .step 3000000 [(5, exSyn)]])
+    (fun r => decide (r.2.2 = [SLabel.ev (.connect 5), .drop 5] ∧ r.1.clients.length = 1)) = true := by
+  decide +kernel
+
+/-- A well-formed state with an empty buffer, and a successful step from it. -/
+example : exServer.WF ∧ exServer.eventsOut = [] := ⟨Server.WF.init _ _ _, rfl⟩
+
+example : okAnd (exServer.step trivHC 1000000 [(5, exSyn)]) (fun r => r.2.2 == []) = true := by decide +kernel
 
 end Uflow.Props.C08
